@@ -23,7 +23,7 @@ for f in sys.argv[1:]:
                      'first_result': prev.get('first_result', {'check_violations': int(nv), 'check_exit': ex})}
 for key, r in sorted(rows.items()):
     pid, n = key.split('-')
-    src = f'/tmp/wt/{pid}/_seed/{n}'
+    src = f'/tmp/wt/{pid}/_seed/{n}' if os.path.isdir(f'/tmp/wt/{pid}/_seed/{n}') else f'/tmp/wt2/{pid}/_seed/{n}'
     dst = os.path.join(V, 'seeded', key)
     if os.path.isdir(src):
         os.makedirs(dst, exist_ok=True)
